@@ -107,6 +107,7 @@ class Dusq():
                          False means do not deepcopy
 
         """
+        vals = tuple(vals)  # one-shot iterable must survive type check below
         for val in vals:
             if not isinstance(val, (RegDom, IceRegDom)):
                 raise HierError(f"Expected RegDom instance got {val}")
